@@ -217,6 +217,12 @@ def c10(tier, seed, wd, replay=None):
         run.violation("dump:recursive-function-closure|" + err,
                       "nrpickler.dumps raises " + err + " on a graph holding a function that is reachable from its own closure "
                       "(dill.dumps handles it)", {"kind": "pickle-recursive-closure"})
+    err = PX.main_super_case(wd)
+    run.count_class("dump:main-class-with-super")
+    if err:
+        run.violation("dump:main-class-with-super|" + err,
+                      "nrpickler.dumps on an instance of a Vertex subclass defined in __main__ whose __init__ uses zero-argument "
+                      "super(): " + err + " (dill.dumps handles it)", {"kind": "pickle-main-super"})
     run.extra["fresh_interpreter_runs"] = len(fresh_jobs)
     run.extra["t_fresh_s"] = round(time.time() - t0, 1)
     # (d) depth
@@ -230,8 +236,9 @@ def c10(tier, seed, wd, replay=None):
                           {"kind": "pickle-depth", "n": n, "limit": lim, "shape": kind})
     run.traces += len(tree_recs) + len(iso_recs) + len(cont_recs) + len(fresh_jobs)
     run.evaluations += len(tree_recs) + len(iso_recs) + len(cont_recs) + len(fresh_jobs) + len(sizes)
-    if tree_recs:
-        t = tree_recs[0]
+    good_trees = [t for t in tree_recs if t["tree"]]
+    if good_trees:
+        t = good_trees[0]
         run.sample({"mechanism": {"protocol": t["protocol"], "nodes": len(t["tree"]), "first_node_items": t["tree"][0][:8], "lazy_effects": t["lazy"][:8]}})
     if iso_recs:
         r = iso_recs[len(iso_recs) // 2]
@@ -249,7 +256,9 @@ def replay_file(path, wd):
         rp = json.load(f)
     consts = {k: (set(v) if isinstance(v, list) else v) for k, v in rp.get("consts", {}).items()}
     kind = rp["kind"]
-    if kind == "pickle-recursive-closure":
+    if kind == "pickle-main-super":
+        bad = bool(PX.main_super_case(wd))
+    elif kind == "pickle-recursive-closure":
         bad = bool(PX.recursive_closure_case())
     elif kind == "pickle-depth":
         err, ok = PX.deep_chain(rp["n"], rp["limit"], rp["shape"])
